@@ -8,6 +8,9 @@ from . import ROOT, build
 def _path(prop):
     d = os.path.join(ROOT, "evidence")
     os.makedirs(d, exist_ok=True)
+    if os.environ.get("VF_ONLY") or os.environ.get("VF_PARTIAL"):
+        # a run restricted to some cases (debugging aid, replay) must not replace the record of a full run
+        return os.path.join(d, prop + ".partial.json")
     return os.path.join(d, prop + ".json")
 
 
